@@ -84,6 +84,7 @@ var _ backoff.BackOff
 //@ ensures [C10.sent] isnil(terminalErr) ==> sends() == old(sends())+1
 //@ ensures [C10+C11.stray-retried] !isnil(terminalErr) ==> sends() == old(sends()) || lastSendFailed() // a reply that arrived - stray, duplicated, for another command - never ends the command: the attempt is retried
 //@ ensures [C10.final] result == nil && isnil(terminalErr) ==> !s.messageLayer.CompletionCode.IsTemporary()
+//@ at return assert [C10.retry-only-temporary] arg[error](0) != nil ==> code == 0xc0 || code == 0xc3 // once a valid response is there, only the two temporary completion codes ask for a retransmission: any other code is final
 //@ ensures [C10.temporary] isnil(terminalErr) && sends() > old(sends()) && result == nil ==> s.messageLayer.CompletionCode != 0xc0 && s.messageLayer.CompletionCode != 0xc3
 //@ ensures [C04.accept] result == nil && isnil(terminalErr) && !isnil(s.integrityAlgorithm) ==> s.v2SessionLayer.Authenticated && s.v2SessionLayer.ID == s.LocalID
 //@ ensures [C04.session] result == nil && isnil(terminalErr) ==> s.v2SessionLayer.ID == s.LocalID
@@ -105,6 +106,7 @@ var _ backoff.BackOff
 //@ at Transport).Send assert [C09.null-session] s.v2SessionLayer.ID == old(s.v2SessionLayer.ID) && s.v2SessionLayer.Sequence == old(s.v2SessionLayer.Sequence)
 //@ ensures [C10.sent] sends() == old(sends())+1
 //@ ensures [C10.final] result == nil ==> !s.messageLayer.CompletionCode.IsTemporary() && s.messageLayer.CompletionCode != 0xc0 && s.messageLayer.CompletionCode != 0xc3
+//@ at return assert [C10.retry-only-temporary] arg[error](0) != nil ==> code == 0xc0 || code == 0xc3 // once a valid response is there, only the two temporary completion codes ask for a retransmission: any other code is final
 //@ ensures [C11.match] result == nil ==> s.messageLayer.Function == c.Operation().Function+1 && s.messageLayer.Command == c.Operation().Command &&
 //@    s.messageLayer.Body == c.Operation().Body && s.messageLayer.Enterprise == c.Operation().Enterprise
 //@ ensures [C18.retry] metric(commandRetries) == old(metric(commandRetries))+ite(old(firstAttempt), 0, 1)
@@ -136,7 +138,10 @@ var _ backoff.BackOff
 //@ ensures [inv.conn] connValid(s)
 
 //@ func (*V2Sessionless).SendCommand
-//@ props C05 C18
+//@ props C05 C10 C18
+//@ at return#1 assert [C10.no-code-on-failure] arg[ipmi.CompletionCode](0) == 0 && arg[error](1) != nil
+//@ at Command).Response assert [C10.code-read] code == s.messageLayer.CompletionCode
+//@ at return assert [C10.code-returned] arg[ipmi.CompletionCode](0) == code // once a valid response is there, its completion code is returned - also when its body cannot be decoded
 //@ option keeps-request:c
 //@ ensures [C18.attempts] metricvec(commandAttempts, c.Name()) == old(metricvec(commandAttempts, c.Name()))+1
 //@ ensures [C18.failures] metricvec(commandFailures, c.Name()) == old(metricvec(commandFailures, c.Name()))+ite(result1 != nil, 1, 0)
@@ -357,17 +362,17 @@ func specKInput(st int, n uint8) int {
 
 // K1 (integrity key) is the whole digest HMAC_SIK(0x01 x 20) of the authentication algorithm's hash.
 //@ func algorithmHasher
-//@ props C01 C03 C12
+//@ props C01 C03 C04 C12
 //@ assigns hashstate(g.(additionalKeyMaterialGenerator).hash)
 //@ option dyn:g=github.com/gebn/bmc.additionalKeyMaterialGenerator
 //@ requires [hasher.keygen] !isnil(g.(additionalKeyMaterialGenerator).hash) && hState(g.(additionalKeyMaterialGenerator).hash) == hInit(g.(additionalKeyMaterialGenerator).hash)
 //@ ensures [C12.integ-domain] (result1 == nil) == (i == ipmi.IntegrityAlgorithmNone || i == ipmi.IntegrityAlgorithmHMACSHA196 || i == ipmi.IntegrityAlgorithmHMACMD5128 || i == ipmi.IntegrityAlgorithmHMACSHA256128)
 //@ ensures [C12.integ-none] (i == ipmi.IntegrityAlgorithmNone || result1 != nil) == isnil(result0)
-//@ ensures [C01+C03.integ-sha1] i == ipmi.IntegrityAlgorithmHMACSHA196 ==> hSizeOf(result0) == 12 && hState(result0) == hInit(result0) &&
+//@ ensures [C01+C03+C04.integ-sha1] i == ipmi.IntegrityAlgorithmHMACSHA196 ==> hSizeOf(result0) == 12 && hState(result0) == hInit(result0) &&
 //@    hInit(result0) == hmacKeyedDigest("crypto/sha1.New", old(specKInput(hState(g.(additionalKeyMaterialGenerator).hash), 1)), hSizeOf(g.(additionalKeyMaterialGenerator).hash))
-//@ ensures [C01+C03.integ-md5] i == ipmi.IntegrityAlgorithmHMACMD5128 ==> hSizeOf(result0) == 16 && hState(result0) == hInit(result0) &&
+//@ ensures [C01+C03+C04.integ-md5] i == ipmi.IntegrityAlgorithmHMACMD5128 ==> hSizeOf(result0) == 16 && hState(result0) == hInit(result0) &&
 //@    hInit(result0) == hmacKeyedDigest("crypto/md5.New", old(specKInput(hState(g.(additionalKeyMaterialGenerator).hash), 1)), hSizeOf(g.(additionalKeyMaterialGenerator).hash))
-//@ ensures [C01+C03.integ-sha256] i == ipmi.IntegrityAlgorithmHMACSHA256128 ==> hSizeOf(result0) == 16 && hState(result0) == hInit(result0) &&
+//@ ensures [C01+C03+C04.integ-sha256] i == ipmi.IntegrityAlgorithmHMACSHA256128 ==> hSizeOf(result0) == 16 && hState(result0) == hInit(result0) &&
 //@    hInit(result0) == hmacKeyedDigest("crypto/sha256.New", old(specKInput(hState(g.(additionalKeyMaterialGenerator).hash), 1)), hSizeOf(g.(additionalKeyMaterialGenerator).hash))
 //@ ensures [C01.integ-keygen] hState(g.(additionalKeyMaterialGenerator).hash) == hInit(g.(additionalKeyMaterialGenerator).hash)
 
@@ -514,7 +519,10 @@ func specHMACInit(a ipmi.AuthenticationAlgorithm, key []byte) int {
 // ---- v2session.go: an in-session command
 
 //@ func (*V2Session).SendCommand
-//@ props C05 C18
+//@ props C05 C10 C18
+//@ at return#1 assert [C10.no-code-on-failure] arg[ipmi.CompletionCode](0) == 0 && arg[error](1) != nil
+//@ at Command).Response assert [C10.code-read] code == s.messageLayer.CompletionCode
+//@ at return assert [C10.code-returned] arg[ipmi.CompletionCode](0) == code // once a valid response is there, its completion code is returned - also when its body cannot be decoded
 //@ option keeps-request:c
 //@ requires [sess.valid] !isnil(s) && !isnil(s.v2ConnectionShared) && !isnil(s.buffer) && !isnil(s.transport) && !isnil(c) && !isnil(s.decode) && !isnil(ctx) && !isnil(s.confidentialityLayer) && !isnil(s.backoff)
 //@ requires [C09.bound] s.AuthenticatedSequenceNumbers.Inbound < 0xfffffffe
